@@ -542,12 +542,12 @@ def check_C20(tier, seed):
     thorough = tier == "thorough"
     wd = vlib.mkscratch("c20")
     try:
-        gs = eo.usable(eo.grammars(tier, wd))
+        gs = eo.usable(eo.grammars(tier, wd, seed))
         K = 8 if thorough else 3
         slots = 4 if thorough else 3
         batches = eo.tlc_batches(slots)
         cases, meta = [], []
-        cfgs = [(False, True, False), (True, False, True)]
+        cfgs = eo.FLAGS if thorough else [(False, True, False), (True, False, True)]
         # (a) alone, K separate processes per configuration
         for gid, path in gs:
             for flags in cfgs:
@@ -589,7 +589,7 @@ def check_C20(tier, seed):
             first = eo.first_of(obs, o["key"])
             rep.violation("kind=nondeterministic_output how=%s" % o["how"].split()[0],
                           "grammar %s: bytes differ between `%s` and `%s` (%s)" % (o["grammar"], first["how"], o["how"], o["key"]),
-                          {"engine": "build", "mode": "output", "tokens": False, "observations": [first, o]})
+                          {"engine": "build", "mode": "output", "tokens": False, "seed": seed, "observations": [first, o]})
         per_key = {}
         for o in obs:
             per_key.setdefault(o["key"], []).append(o)
@@ -608,9 +608,9 @@ def check_C20(tier, seed):
     rep.assumptions = ["a hash-seed dependent difference is found only if one of the K processes draws a seed that exposes it",
                        "the LALRPOP version and LALRPOP_LANE_TABLE are fixed during the run"]
     return rep.finish(
-        rule="every grammar of lalrpop-test, LALRPOP's own grammar and five grammars written for the purpose (many macro instances, "
-             "inferred types, conditions, precedence, recursive ascent) is generated (a) alone in K separate processes (K=3 quick, 8 "
-             "thorough) under two configurations and (b) by process_dir in every non-empty subset and order of its group of 3 (thorough 4) "
+        rule="every grammar of lalrpop-test, LALRPOP's own grammar, five grammars written for the purpose (many macro instances, "
+             "inferred types, conditions, precedence, recursive ascent) and seeded random grammars (16 quick, 200 thorough; the accepted "
+             "ones) is generated (a) alone in K separate processes (K=3 quick, 8 thorough) under two (thorough: all eight) configurations and (b) by process_dir in every non-empty subset and order of its group of 3 (thorough 4) "
              "grammars, the compositions being enumerated by TLC (Output.tla Batches) and the order realised through the file names; each "
              "output is one observation (key = grammar, configuration; digest = sha3 of the bytes) and Output.tla's OutputFunctional "
              "requires every observation of a key to equal the first; a case is a key, non-trivial when observed at least twice")
@@ -621,7 +621,8 @@ def check_C24(tier, seed):
     cargo_build_or_die(["fsdrv"])
     wd = vlib.mkscratch("c24")
     try:
-        gs = eo.usable(eo.grammars(tier, wd))
+        nrandom = 1200 if tier == "thorough" else 16
+        gs = eo.usable(eo.grammars(tier, wd, seed, nrandom))
         cases, meta = [], []
         for gid, path in gs:
             for flags in eo.FLAGS:
@@ -654,7 +655,7 @@ def check_C24(tier, seed):
             rep.violation("kind=token_stream_differs flags=%s" % "+".join(diff),
                           "grammar %s: the Rust token stream under %s (%d tokens) differs from the one under %s (%d tokens)" % (
                               o["grammar"], o["how"], o["tokens"], first["how"], first["tokens"]),
-                          {"engine": "build", "mode": "output", "tokens": True, "observations": [first, o]})
+                          {"engine": "build", "mode": "output", "tokens": True, "seed": seed, "nrandom": nrandom, "observations": [first, o]})
         per = {}
         for o in obs:
             per.setdefault(o["grammar"], []).append(o)
@@ -675,7 +676,8 @@ def check_C24(tier, seed):
                        "removed before comparing, because the property allows comments to differ",
                        "token adjacency (proc-macro2 Spacing) is part of the comparison: `> >` and `>>` are different streams"]
     return rep.finish(
-        rule="every grammar of lalrpop-test, LALRPOP's own grammar and five written for the purpose is generated under all 8 "
+        rule="every grammar of lalrpop-test, LALRPOP's own grammar, five written for the purpose and seeded random grammars (16 quick, "
+             "1200 thorough; the accepted ones) is generated under all 8 "
              "combinations of emit_comments / emit_whitespace / emit_report; each output is tokenised (proc-macro2) and is one "
              "observation (key = grammar, digest = sha3 of the canonical token text); Output.tla's OutputFunctional requires all 8 to "
              "agree; a case is a grammar, non-trivial when the flags do change its bytes")
